@@ -941,8 +941,9 @@ class Actor(object):
             # meaningful while the simulated bundle is in place
             if sim.world.bundle is None or sim.world.bundle_fault:
                 return
-        if rec["prov"] == "file" and sim.fault_class:
-            return
+        # (a zone that came from a file is copied and pickled by value: what
+        # happens to the file afterwards -- the armed faults of the fault
+        # runs -- must not matter)
         import warnings
         try:
             with warnings.catch_warnings():
